@@ -50,11 +50,20 @@ def kwargs(o):
     return kw
 
 
+_POOL = {}
+
+
 def real_run(tokens, o):
     """(output code points, error codes, strict cut, error codes of the strict run) of the real serializer on a stream"""
     from html5lib.serializer import HTMLSerializer, SerializeError
     kw = kwargs(o)
-    s = HTMLSerializer(**kw)
+    # the non-strict run goes through the serializer OBJECT that performed the previous strict run with the same options
+    # (possibly aborted in the middle of a raw-text element): the property is about every HTMLSerializer, used or not
+    key = tuple(sorted(kw.items()))
+    s = _POOL.pop(key, None)
+    if s is None:
+        s = HTMLSerializer(**kw)
+    s.strict = False
     try:
         out = core.cps(s.render(iter(tokens)))
     except Exception as e:                                        # the machine has no such behaviour: compared as a marker
@@ -70,6 +79,7 @@ def real_run(tokens, o):
         sn = n
     except Exception:
         sn = -2
+    _POOL[key] = s2
     return out, errs, sn, [err_code(m) for m in s2.errors]
 
 
